@@ -44,6 +44,8 @@ structure Globals where
   NO_ESCAPE_TAG_NAMES : List Str
   isSpace : Char → Bool            -- `str.isspace` per character
   lower : Str → Str                -- `str.lower`
+  /-- `packaging.version.Version(s)` (not translated): the Version object, or `none` for InvalidVersion (Py/PrimC10b.lean) -/
+  mkVersion : Str → Option PVal := fun _ => Option.none
 
 instance : Inhabited Globals :=
   ⟨{ HTML_ESCAPE_TABLE := .none, HTML_ATTRS_ESCAPE_TABLE := .none, VOID_TAG_NAMES := [],
